@@ -359,6 +359,7 @@ def run_shard(spec):
 TEXT = ("Held on every chain observed: ~6 000 (quick) / ~190 000 (thorough) random derivation chains; the "
         "rectangularity invariant is evaluated on every live table after every operation, each derivation is "
         "bracketed by source snapshots, scalar entries are checked on row/column selections and column expressions "
-        "are compared with numpy. Exploration over sampled tables and chains.")
+        "are compared with numpy. Exploration over sampled tables and chains."
+        ' Includes assignments that fail part-way between two evaluations of one column expression.')
 NOTE = "Trusted: the invariant and snapshot computations over raw _data/_col_names; numpy as the element-wise oracle."
 TECHNIQUE = "runtime monitoring: structural invariant evaluated on all live tables after every operation + before/after source snapshots around every derivation + numpy oracle for column expressions"
